@@ -52,7 +52,8 @@ LEVEL = {'text': 'Machine-checked refinement of a state machine (caches, object 
                  '(offset-exact lookups name a unit/entry start). What the bytes decode to is abstract (parse '
                  'functions of the file description); decoding itself is the subject of C04/C05/C06.'}
 RULE = ('cases: (file, history, last operation); bfs = every abstract state reachable within the depth bound x every '
-        'operation of the alphabet on 3 synthesized files (six alphabets: DWARF, ELF, walking the children of an offset-fetched entry then asking for the parent of '
+        'operation of the alphabet on 3 synthesized files (seven alphabets: DWARF, ELF, listing the children of an inner entry and then of an ancestor two levels up '
+        '(three levels deeper), walking the children of an offset-fetched entry then asking for the parent of '
         'the entry after its subtree (two levels deeper), call-frame decoding in every order '
         '(two levels deeper), interleaved iterators over the children of one entry (five levels deeper), and a type-unit generator '
         'interleaved with lookups by signature (two levels deeper)); pair = every interleaving up to depth 3 of '
@@ -937,6 +938,22 @@ def alphabet(meta, machine):
         sigs = meta['tu_sigs']
         ops += [['NewIterTUs', 0], ['Next', 0], ['TUBySig', sigs[0]], ['TUBySig', sigs[-1]], ['TUBySig', 0x1234],
                 ['Disturb', 12, 3], ['CUAt', meta['units'][-1]['off']]]
+    elif machine == 'DA':
+        # listing the children of an inner entry first and those of an ancestor two (or more) levels up afterwards,
+        # on a path without DW_AT_sibling: the ancestor's walk meets entries whose closing null entry is already cached
+        found = []
+        for u in meta['units']:
+            def walk(n, up):
+                off, raw, kids, toff, traw = n
+                if kids and not raw[3] and len(up) >= 2 and not up[-1][1][3]:
+                    found.append((len(kids) + len(up[-2][2]), u['off'], up[-2], up[-1], n, up[0]))
+                for k in kids:
+                    walk(k, up + [n])
+            walk(u['tree'], [])
+        if found:
+            _, uo, anc, mid, inner, top = min(found, key=lambda x: (x[0], x[1], x[4][0]))
+            ops += [['NewIterChildren', 0, uo, inner[0]], ['Next', 0], ['NewIterChildren', 1, uo, anc[0]], ['Next', 1],
+                    ['NewIterChildren', 1, uo, top[0]], ['DIEAt', uo, mid[0]]]
     elif machine == 'DQ':
         # an entry Q with children that is followed by a sibling R: walking Q's children to the end caches the null
         # entry that closes them, which is adjacent to R; then R's parent is asked for
@@ -1237,10 +1254,10 @@ def gen(ctx):
         if meta.get('broken'):
             cases.append(('tab', [name, []]))
             continue
-        for machine in ('D', 'E', 'DF', 'DN', 'DT', 'DQ'):
+        for machine in ('D', 'E', 'DF', 'DN', 'DT', 'DQ', 'DA'):
             if machine == 'DT' and len(meta.get('tu_sigs', [])) < 2:
                 continue
-            d = {'DF': depth + 2, 'DN': depth + 5, 'DT': depth + 2, 'DQ': depth + 2}.get(machine, depth)
+            d = {'DF': depth + 2, 'DN': depth + 5, 'DT': depth + 2, 'DQ': depth + 2, 'DA': depth + 3}.get(machine, depth)
             if not alphabet(meta, machine):
                 continue
             edges, nstates, closed = explore(meta, machine, d)
